@@ -176,6 +176,7 @@ func runReload(sc Scenario) (res vh.Result) {
 	if sc.Family == "reload-backlog" {
 		res.Classes = append(res.Classes, "reload-with-a-long-backlog-and-traffic-flowing(family)")
 	}
+	withholdIfChannelTimeoutExpired(&res, agentErrors)
 	if res.Violation != nil && agentErrors != "" {
 		if len(agentErrors) > 3000 {
 			agentErrors = agentErrors[:3000]
